@@ -152,6 +152,19 @@ impl Sys {
             Op::Len => (Ret::N(self.reg.len()), None),
             Op::Broadcast(tok) => {
                 let path = format!("/bcast/{tok}");
+                // now and then a broadcast whose body fails to serialize part-way (JSON object with non-string keys) runs
+                // first on the same thread: it must deliver nothing and must not affect the following broadcast
+                let mut bad_problem: Option<String> = None;
+                if tok % 3 == 0 {
+                    let mut bad: std::collections::BTreeMap<(u8, u8), u64> = Default::default();
+                    bad.insert((1, 2), tok);
+                    let bad_path = format!("/bcast/bad/{tok}");
+                    let r = self.reg.broadcast_notify_json(&bad_path, &BadBody { seq: tok, bad: bad_wrapper(&bad) });
+                    let delivered: usize = self.sinks.iter().map(|s| s.lock().unwrap().iter().filter(|(m, _, _)| *m == bad_path).count()).sum();
+                    if r.is_ok() || delivered != 0 {
+                        bad_problem = Some(format!("a broadcast whose body cannot be serialized returned Ok={} and was delivered {delivered} times", r.is_ok()));
+                    }
+                }
                 let (res, body, fmt): (HashMap<PeerId, Result<(), PeerSendError>>, Vec<u8>, u16) = match tok % 4 {
                     0 => {
                         let v = json!({"tok": tok});
@@ -172,7 +185,7 @@ impl Sys {
                 };
                 let mut set: Vec<u8> = res.keys().map(|id| unpid(*id)).collect();
                 set.sort();
-                let mut problem = None;
+                let mut problem = bad_problem;
                 if res.values().any(|r| r.is_err()) {
                     problem = Some("a capturing sink reported an error".to_string());
                 }
@@ -192,6 +205,27 @@ impl Sys {
             }
         }
     }
+}
+
+/// Serializes as a map with tuple keys: serde_json emits the opening bytes and then fails ("key must be a string").
+struct BadMap<'a>(&'a std::collections::BTreeMap<(u8, u8), u64>);
+impl serde::Serialize for BadMap<'_> {
+    fn serialize<S: serde::Serializer>(&self, ser: S) -> Result<S::Ok, S::Error> {
+        use serde::ser::SerializeMap;
+        let mut m = ser.serialize_map(Some(self.0.len()))?;
+        for (k, v) in self.0 {
+            m.serialize_entry(k, v)?;
+        }
+        m.end()
+    }
+}
+#[derive(serde::Serialize)]
+struct BadBody<'a> {
+    seq: u64,
+    bad: BadMap<'a>,
+}
+fn bad_wrapper(b: &std::collections::BTreeMap<(u8, u8), u64>) -> BadMap<'_> {
+    BadMap(b)
 }
 
 fn observers() -> Vec<Op> {
